@@ -26,6 +26,7 @@ type vPipeEnd struct {
 	delivered int    // bytes written by this end
 	owner     uint64 // node id holding this end (cluster harnesses; 0 = unknown)
 	onWrite   func() // called at the start of every Write (a harness can make the network slow here)
+	failNext  int    // the next failNext writes deliver only their first half and fail (write deadline exceeded)
 }
 
 func vPipe() (*vPipeEnd, *vPipeEnd) {
@@ -59,6 +60,13 @@ func (e *vPipeEnd) Write(b []byte) (int, error) {
 	}
 	if e.closed || e.peer.closed {
 		return 0, vIOError{"write on closed connection"}
+	}
+	if e.failNext > 0 {
+		e.failNext--
+		half := len(b) / 2
+		e.out <- append([]byte(nil), b[:half]...)
+		e.delivered += half
+		return half, vIOError{"write: i/o timeout"}
 	}
 	e.out <- append([]byte(nil), b...)
 	e.delivered += len(b)
@@ -2028,5 +2036,69 @@ func VH_C06_pipeline_ack_credit() {
 	})
 	<-ended
 	checkUpdates()
+	vReach("end")
+}
+
+
+//verif:check C01,C04,C18,C20 sched=coop maxsteps=800000 onunwind=violation stubs=rt,timers,valuefile,abslog onblock=violation reach=entries-write-in-flight,stopped,end desc="as VH_C01_replication_conn_reuse, but the pipeline writer's network write of the ENTRIES (written to the connection directly, not through the buffered writer) is cut short by its deadline after half of the bytes, at the moment the leader stops the replication: a connection on which a request was only partly written is never put back into the per-peer pool - the next request sent on it (a vote request) would be read by the peer as the rest of those entries" bounds="leader log of 3 entries, follower at 1; the fifth network write (the entries of the pipeline's first request) delivers half and fails; both outcomes of the writer's select between the stop signal and reporting its request"
+func VH_C01_replication_conn_reuse_failed_write() {
+	r := vLoopNode(Leader)
+	a := vAbs(r.log)
+	for i := uint64(2); i <= 3; i++ {
+		a.ents = append(a.ents, vEncodeEntry(&entry{index: i, term: 1, typ: entryUpdate, data: vBytes("cmd", 4)}))
+	}
+	a.flushed = 3
+	r.lastLogIndex, r.lastLogTerm = 3, 1
+	r.hbTimeout = 1000
+	var leaderEnd *vPipeEnd
+	writes, gate := 0, make(chan struct{})
+	r.dialFn = func(network, address string, timeout time.Duration) (net.Conn, error) {
+		x, y := vPipe()
+		leaderEnd = x
+		x.onWrite = func() {
+			writes++
+			if writes == 5 { // identity, probe, probe, request header, then the entries
+				<-gate
+				x.failNext = 1
+			}
+		}
+		go vProbePeer(y)
+		return x, nil
+	}
+	r.resolver.addrs[2] = vAddr(2)
+	l := r.ldr
+	l.replUpdateCh = make(chan replUpdate, 64)
+	repl := &replication{
+		node: r.configs.Latest.Nodes[2], rtime: newRandTime(),
+		status:        replicationStatus{id: 2, node: r.configs.Latest.Nodes[2]},
+		ldrStartIndex: 1, ldrLastIndex: r.lastLogIndex, nextIndex: r.lastLogIndex + 1,
+		connPool: r.getConnPool(2), hbTimeout: r.hbTimeout, timer: newSafeTimer(),
+		log: r.log.ViewAt(0, r.lastLogIndex), snaps: r.snaps,
+		stopCh: make(chan struct{}), replUpdateCh: l.replUpdateCh, leaderUpdateCh: make(chan leaderUpdate, 1),
+	}
+	areq := &appendReq{req: req{r.term, r.nid}, ldrCommitIndex: r.commitIndex, prevLogIndex: r.lastLogIndex, prevLogTerm: r.lastLogTerm}
+	ended := make(chan struct{})
+	go func() { repl.runLoop(areq); close(ended) }()
+	step := 0
+	vSetIdleHook(func() {
+		switch step {
+		case 0:
+			vAssert(writes == 5, "FW-pipeline-writer-is-inside-the-write-of-its-entries")
+			vReach("entries-write-in-flight")
+			close(repl.stopCh) // the leader steps down and stops its replications
+		case 1:
+			close(gate) // the write deadline passes: half of the bytes went out
+		case 2:
+			// (still running: the reader waits for a reply to the request that was never completed; its drain
+			// timeout - time.After, which the engine never fires - or the peer hanging up ends that)
+			_ = leaderEnd.peer.Close()
+		}
+		step++
+	})
+	<-ended
+	vReach("stopped")
+	pool := r.getConnPool(2)
+	vAssert(len(pool.conns) == 0, "FW-connection-with-a-partly-written-request-is-not-pooled")
+	vAssert(leaderEnd.closed, "FW-connection-with-a-partly-written-request-is-closed")
 	vReach("end")
 }
